@@ -120,9 +120,13 @@ NextS(tx, s, saved, ev) ==
                      ELSE IF ev[3] = 1 THEN [s EXCEPT !.off = s.off + Len(ev[2])]
                      ELSE [s EXCEPT !.unk = TRUE, !.bad = (s.failat >= 0)]   \* may have hit the failing offset
     [] OTHER -> s
-(* while the offset is unknown a handed-out position is remembered with the offset it reports *)
-NextSaved(s, saved, ev) ==
-  IF ev[1] = 2 /\ Len(ev) = 5 THEN Append(saved, IF s.unk \/ s.bad THEN ev[3] ELSE s.off) ELSE saved
+(* while the offset is unknown a handed-out position is remembered with the offset it reports
+   (a reported offset outside the text - garbage - is remembered as the end of the text: the judge must never
+   index the text with it) *)
+NextSaved(tx, s, saved, ev) ==
+  IF ev[1] = 2 /\ Len(ev) = 5
+  THEN Append(saved, IF s.unk \/ s.bad THEN (IF ev[3] \in 0..Len(tx) THEN ev[3] ELSE Len(tx)) ELSE s.off)
+  ELSE saved
 
 (* entries for one history: every observed-only disagreement of the pure observers (7, 8), and the first
    other inexplicable event, after which the state is no longer known *)
@@ -133,7 +137,7 @@ RunHist(skind, tx, s, saved, evs, k, acc) ==
            w == EvWhy(tx, s, saved, ev)
            e == [k |-> k, op |-> OpName(ev), why |-> w, scope |-> InScope(skind, ev, w) \/ "HARNESS-PRECONDITION" \in w]
        IN IF w # {} /\ ev[1] \notin {7, 8} THEN Append(acc, e)
-          ELSE RunHist(skind, tx, NextS(tx, s, saved, ev), NextSaved(s, saved, ev), evs, k + 1,
+          ELSE RunHist(skind, tx, NextS(tx, s, saved, ev), NextSaved(tx, s, saved, ev), evs, k + 1,
                        IF w # {} THEN Append(acc, e) ELSE acc)
 
 (* phrase_parse_string(literal / char_set, tx, *char_set(space_set)):
@@ -146,7 +150,10 @@ SpacePrefix(tx, k) == IF k < Len(tx) /\ IsSpace(tx[k + 1]) THEN SpacePrefix(tx, 
 EntryWhy(r) ==
   LET k == SpacePrefix(r.text, 0)
       acc(c) == IF r.kind = 5 THEN c = r.arg[1] ELSE InSeq(c, r.arg)
-  IN IF r.res = -2 THEN {"HARNESS-PRECONDITION"}
+  IN \* the string entry point over a std::basic_istringstream: an exception (-2) is no documented outcome;
+     \* -3: the call crashed / hung (the harness' crash handler completed the record)
+     IF r.res = -2 THEN {"exception"}
+     ELSE IF r.res = -3 THEN {"crash"}
      ELSE IF k = Len(r.text) THEN (IF r.res = 1 THEN {"success-at-end-of-input"} ELSE {})
      ELSE IF acc(r.text[k + 1])
           THEN (IF (r.res = 1) = (k + 1 = Len(r.text)) THEN {} ELSE {"success-iff-all-consumed"})
